@@ -39,6 +39,7 @@ import (
 	_ "github.com/megaease/easegress/pkg/filters/responseadaptor"
 	"github.com/megaease/easegress/pkg/logger"
 	"github.com/megaease/easegress/pkg/object/pipeline"
+	"github.com/megaease/easegress/pkg/protocols/httpprot"
 	"github.com/megaease/easegress/pkg/protocols/httpprot/httpstat"
 	"github.com/megaease/easegress/pkg/supervisor"
 )
@@ -519,13 +520,95 @@ func (b *c03Backend) end() []*c03BReq {
 // ------------------------------------------------------------------------------------------
 // the stack: loopback listener -> net/http server -> real mux -> real pipeline
 
-type c03Mapper struct{ h context.Handler }
+type c03Mapper struct {
+	h  context.Handler
+	st *c03Stack
+}
 
 func (m *c03Mapper) GetHandler(name string) (context.Handler, bool) {
 	if name == c03PipelineName && m.h != nil {
-		return m.h, true
+		return &c03HoldHandler{h: m.h, st: m.st}, true
 	}
 	return nil, false
+}
+
+// c03Hold parks exchanges between the point where the mux has taken the request in (httpprot.NewRequest +
+// Request.FetchPayload, as mux.ServeHTTP does) and the pipeline: a request that carries one of the slot
+// header values of `slots` waits in its handler until release() (or `max`, a guard).  Everything else
+// passes.  entered(slot) tells the driver that the exchange is parked.
+type c03Hold struct {
+	mu      sync.Mutex
+	slots   map[string]chan struct{} // closed when the exchange of that slot is parked
+	parked  map[string]bool
+	ch      chan struct{}
+	once    sync.Once
+	max     time.Duration
+	expired bool // an exchange left the hold because of the guard, not because it was released
+}
+
+func c03NewHold(max time.Duration, slots ...string) *c03Hold {
+	h := &c03Hold{slots: map[string]chan struct{}{}, parked: map[string]bool{}, ch: make(chan struct{}), max: max}
+	for _, s := range slots {
+		h.slots[s] = make(chan struct{})
+	}
+	return h
+}
+
+func (h *c03Hold) release() { h.once.Do(func() { close(h.ch) }) }
+
+// entered waits until the exchange of the slot is parked (false: it did not get there in time).
+func (h *c03Hold) entered(slot string, wait time.Duration) bool {
+	select {
+	case <-h.slots[slot]:
+		return true
+	case <-time.After(wait):
+		return false
+	}
+}
+
+func (h *c03Hold) park(slot string) {
+	h.mu.Lock()
+	ch, ok := h.slots[slot]
+	if !ok || h.parked[slot] {
+		h.mu.Unlock()
+		return
+	}
+	h.parked[slot] = true
+	h.mu.Unlock()
+	close(ch)
+	select {
+	case <-h.ch:
+	case <-time.After(h.max):
+		h.mu.Lock()
+		h.expired = true
+		h.mu.Unlock()
+	}
+}
+
+func (h *c03Hold) wasExpired() bool {
+	h.mu.Lock()
+	defer h.mu.Unlock()
+	return h.expired
+}
+
+// c03HoldHandler is what the mux gets as the handler of the pipeline: the pipeline itself, behind the hold
+// of the case (if any).
+type c03HoldHandler struct {
+	h  context.Handler
+	st *c03Stack
+}
+
+func (w *c03HoldHandler) Handle(ctx *context.Context) string {
+	if w.st != nil {
+		if hd := w.st.getHold(); hd != nil {
+			if req, ok := ctx.GetInputRequest().(*httpprot.Request); ok {
+				if slot := req.HTTPHeader().Get(c03SlotHeader); slot != "" {
+					hd.park(slot)
+				}
+			}
+		}
+	}
+	return w.h.Handle(ctx)
 }
 
 type c03Stack struct {
@@ -534,6 +617,19 @@ type c03Stack struct {
 	mu     sync.RWMutex
 	cur    *mux
 	mapper *c03Mapper
+	hold   *c03Hold
+}
+
+func (s *c03Stack) setHold(h *c03Hold) {
+	s.mu.Lock()
+	s.hold = h
+	s.mu.Unlock()
+}
+
+func (s *c03Stack) getHold() *c03Hold {
+	s.mu.RLock()
+	defer s.mu.RUnlock()
+	return s.hold
 }
 
 func (s *c03Stack) ServeHTTP(w http.ResponseWriter, r *http.Request) {
@@ -688,7 +784,7 @@ func (s *c03Stack) install(cfg *c03Config) (func(), error) {
 		p.Close()
 		return nil, err
 	}
-	mapper := &c03Mapper{h: p}
+	mapper := &c03Mapper{h: p, st: s}
 	m := newMux(httpstat.New(), httpstat.NewTopN(10), mapper)
 	m.reload(hspec, mapper)
 	s.mu.Lock()
